@@ -135,38 +135,156 @@ def parser_trees(ctx, names, dump=True):
     return files
 
 
+REASON_ASPECT = {'verdict': ('C01.trace', 'C12.trace'), 'value': ('C02.trace', 'C12.trace'), 'codemap': ('C05.trace', 'C12.trace'),
+                 'error': ('C07.trace', 'C07.trace'), 'pulls': ('C03.trace', 'C03.trace'), 'events': ('C05.trace', 'C05.trace')}
+
+
+def parser_trace(ctx, aspects):
+    """impl -> spec: record real parses of generated / damaged / corpus documents (coarse `doc`
+    events under 1 or 4 option records, plus a number of parses at the grain of pulls and
+    fragment hooks) and validate them with TraceParser."""
+    n, fine = (260, 40) if ctx.quick else (6000, 600)
+    trace, s = ctx.record('record-parse', 'parse.ndjson', ['--n', n, '--fine', fine])
+    mod = '---- MODULE TRI_parse ----\nEXTENDS TraceParser\n====\n'
+    cfg = 'SPECIFICATION TrSpec\nINVARIANT Result\nCHECK_DEADLOCK FALSE\n'
+    r = vp.tlc(f'{ctx.pid}_parse', mod, cfg, workers=1, cache=False, env={'TRACE': trace}, timeout=3000,
+               props=('tlc2.tool.queue.IStateQueue=StateDeque',))
+    if not r['ok']:
+        raise ToolError(f'TraceParser failed: {r["violation"]}; see {r["out"]}')
+    res = None
+    for line in vp.tlc_lines(r['out'], '"{'):
+        rec = vp.unquote_tlc(line)
+        if rec.get('k') == 'trace_result':
+            res = rec
+    if res is None:
+        raise ToolError(f'TraceParser did not finish; see {r["out"]}')
+    lines = open(trace).read().splitlines()
+    mine = []
+    counts = {}
+    for l, why in res['bad']:
+        ev = json.loads(lines[l - 1])
+        # which option record was in force?
+        o = ev.get('o')
+        if o is None:
+            j = l - 1
+            while j >= 0 and '"ev":"start"' not in lines[j]:
+                j -= 1
+            o = json.loads(lines[j])['o'] if j >= 0 else [False, False]
+        aspect = REASON_ASPECT[why][0 if o == [False, False] else 1]
+        counts[aspect] = counts.get(aspect, 0) + 1
+        if any(aspect.startswith(a) for a in aspects):
+            start = l - 1
+            if ev['ev'] != 'doc':
+                while start > 0 and '"ev":"start"' not in lines[start]:
+                    start -= 1
+            prefix = os.path.join(vp.ROOT, 'replays', f'{ctx.pid}-parse-event{l}.trace.ndjson')
+            os.makedirs(os.path.dirname(prefix), exist_ok=True)
+            open(prefix, 'w').write('\n'.join(lines[start:l]) + '\n')
+            text = ''.join(chr(c) for c in ev.get('w', [])) if ev.get('w') else None
+            mine.append((aspect, {'what': f'recorded parse is not a behaviour of JsonParser ({why})', 'reason': why, 'event_index': l,
+                                  'input': {'text': text, 'o': o}, 'event': ev if len(lines[l - 1]) < 4000 else {'ev': ev['ev']},
+                                  'trace_module': 'TraceParser', 'trace_prefix': prefix}))
+    # harness-side relations recorded with the trace
+    if s.get('entrypoint_disagreements') and any('C01.'.startswith(a) or a.startswith('C01') for a in aspects):
+        for d in s['entrypoint_disagreements'][:20]:
+            mine.append(('C01.entrypoints', {'what': 'entry points disagree on a recorded input', 'input': d}))
+    if s.get('lookup_failures') and any(a.startswith('C02') for a in aspects):
+        mine.append(('C02.lookup', {'what': f'{s["lookup_failures"]} recorded documents: key lookup differs from a scan'}))
+    nbad = len({l for l, _ in res['bad']})
+    summ = {'label': 'parse', 'events': res['events'], 'validated': s.get('parses', 0) - len(mine), 'rejected': len(mine),
+            'wall_s': r['wall_s'], 'distinct': s.get('parses', 0), 'mismatch_counts': counts, 'all_rejected_events': nbad}
+    ctx.traces.append(summ)
+    ctx.mismatches.extend(mine[:60])
+    ctx.samples.extend(s.get('samples', [])[:1])
+
+
+def sweeps(ctx, only, aspect, what):
+    """exhaustive run-compressed sweeps (Sweeps.tla / TraceSweep.tla)"""
+    files = []
+    for name in ['all']:
+        trace, s = ctx.record('sweep', f'sweep_{name}.ndjson', ['--tier', ctx.tier, '--only', ','.join(only)])
+        # the runs of one sweep must tile its domain: consecutive, no gaps except the surrogate range
+        prev = None
+        for line in open(trace):
+            r = json.loads(line)
+            key = json.dumps(r['sw'])
+            if prev and prev[0] == key and r['lo'] != prev[1] + 1 and not (prev[1] == 0xD7FF and r['lo'] == 0xE000):
+                raise ToolError(f'sweep {key}: runs are not contiguous at {r["lo"]}')
+            prev = (key, r['hi'])
+        v = ctx.validate(f'sweep_{name}', 'TraceSweep', trace, aspect, what, timeout=3000)
+        v['events'] = s.get('elements', v['events'])
+        v['validated'] = s.get('elements', 0) if not v['rejected'] else v['validated']
+        v['distinct'] = s.get('elements', 0)
+        ctx.samples.extend(s.get('samples', [])[:1])
+    return files
+
+
+def byte_trees(ctx, names=('utf8', 'utf8x4', 'utf8x4b', 'mixed', 'mixedlenient')):
+    files = []
+    for n in names:
+        consts, plain = models.byte_tree_instance(n, ctx.tier)
+        r = ctx.mc(f'btree_{n}_{ctx.tier}', 'MC_Bytes', consts, plain, ['Dump', 'DecoderIsTable37'], spec='BSpec')
+        files.append(r['out'])
+    return files
+
+
 STRICT_TREES = ['struct', 'lit', 'num', 'numtop', 'numobj', 'str', 'hex', 'tokens', 'nest']
 SURR_TREES = ['surr', 'surrkey', 'surropen']
 
 
 def c01(ctx):
-    files = parser_trees(ctx, STRICT_TREES)
+    files = parser_trees(ctx, STRICT_TREES) + byte_trees(ctx)
     ctx.replay(files, ['C01.'])
+    parser_trace(ctx, ['C01.'])
+    sweeps(ctx, ['raw_str', 'raw_key', 'esc_ascii', 'esc_u', 'esc_pair', 'esc_pair2'], 'C01.sweep',
+           'acceptance of a raw character / escape / escape pair differs from RFC 8259 (run-compressed exhaustive sweep)')
 
 
 def c02(ctx):
     files = parser_trees(ctx, STRICT_TREES)
     ctx.replay(files, ['C02.'])
+    parser_trace(ctx, ['C02.'])
+    sweeps(ctx, ['raw_str', 'raw_key', 'esc_ascii', 'esc_u', 'esc_u_key', 'esc_pair', 'esc_pair2', 'combine'], 'C02.sweep',
+           'decoding of a character / escape / surrogate pair differs from the specification (run-compressed exhaustive sweep)')
+    ctx.notes.append('sweeps: the real parser is run on every element (all scalars raw in strings and keys, all backslash+ASCII pairs, all 65536 '
+                     '\\uXXXX in both hex cases, fixed-high x every second escape, every first escape x fixed-low, all 1048576 surrogate pairs); '
+                     'quick tier evaluates the specification at the end points and 33 interior points of every observed run, thorough on every element')
 
 
 def c05(ctx):
     files = parser_trees(ctx, ['struct', 'tokens', 'nest', 'str', 'numobj'])
     ctx.replay(files, ['C05.'])
+    parser_trace(ctx, ['C05.'])
 
 
 def c07(ctx):
-    files = parser_trees(ctx, STRICT_TREES + SURR_TREES)
+    files = parser_trees(ctx, STRICT_TREES + SURR_TREES) + byte_trees(ctx)
     ctx.replay(files, ['C07.'])
+    parser_trace(ctx, ['C07.'])
 
 
 def c12(ctx):
     files = parser_trees(ctx, SURR_TREES + ['struct', 'str', 'hex'])
     ctx.replay(files, ['C12.'])
+    parser_trace(ctx, ['C12.'])
+    sweeps(ctx, ['esc_u', 'esc_pair', 'raw_str', 'esc_ascii'], 'C12.sweep',
+           'outcome of an escape / escape pair under the lenient options differs from the specification (run-compressed exhaustive sweep)')
+
+
+def nest_families(ctx):
+    depths = '{1000, 100000}' if ctx.quick else '{1000, 100000, 1000000, 2000000}'
+    consts = {'Families': 'AllFamilies', 'Depths': depths}
+    return ctx.mc(f'nest_{ctx.tier}', 'MC_Nest', consts, {'NMax': 9}, ['Affine', 'Dump'], spec='NSpec', workers=4)
 
 
 def c03(ctx):
-    files = parser_trees(ctx, STRICT_TREES + SURR_TREES)
-    ctx.replay(files, ['C03.'])
+    files = parser_trees(ctx, ['struct', 'num', 'str', 'hex', 'nest', 'surr', 'surropen'])
+    r = nest_families(ctx)
+    ctx.replay(files + [r['out']], ['C03.'])
+    parser_trace(ctx, ['C03.'])
+    ctx.extra['stack_bytes'] = 256 * 1024
+    ctx.notes.append('nesting families: outcomes affine in the depth, validated by TLC for depth 3..9 and extrapolated; the real parser '
+                     'runs in a child process inside a thread with a 256 KiB stack (string and slice entry points, strict and flexible)')
 
 
 OBJ_MODELS = {
@@ -285,6 +403,21 @@ def c04(ctx):
 def c08(ctx):
     r = printer_model(ctx)
     ctx.replay([r['out']], ['C08.'])
+    sweeps(ctx, ['print_str', 'print_key'], 'C08.sweep',
+           'compact printing of a one-character string / key differs from the RFC 8785 escaping (run-compressed exhaustive sweep)')
+
+
+def c11(ctx):
+    files = parser_trees(ctx, ['struct', 'tokens', 'nest', 'numobj'])
+    if ctx.quick:
+        consts = {'Keys': '{<<97>>}', 'Leaves': '{VNull, VNum(<<49>>)}'}
+    else:
+        consts = {'Keys': '{<<97>>, <<98>>}', 'Leaves': '{VNull, VNum(<<49>>), VBool(TRUE)}'}
+    r = ctx.mc(f'conv_{ctx.tier}', 'MC_Conv', consts, {'Depth': 2, 'Width': 2}, ['Dump', 'ErrInRange'], spec='CSpec')
+    ctx.replay(files + [r['out']], ['C11.'])
+    ctx.extra['rule'] = ('S->I: every accepted document of the structure / token / nesting trees with its navigation expectations (pre-order '
+                         'fragments, offsets of every array item, entry, key and value, lookups for every present, duplicated and absent key, '
+                         'get_fragment for 0..n+2); every small document x 15 type shapes for the conversions')
 
 
 def c20(ctx):
@@ -298,7 +431,7 @@ def c20(ctx):
 CHECKS = {
     'C01': c01, 'C02': c02, 'C03': c03, 'C05': c05, 'C07': c07, 'C12': c12,
     'C04': c04, 'C08': c08, 'C13': c13,
-    'C06': c06, 'C14': c14, 'C15': c15,
+    'C06': c06, 'C11': c11, 'C14': c14, 'C15': c15,
     'C20': c20,
 }
 
